@@ -9,7 +9,7 @@ from ..framework import result, ihash
 
 ID = "C11"
 LEVEL = "exploration"
-RUNS = {"quick": 900, "thorough": 40000}
+RUNS = {"quick": 1200, "thorough": 40000}
 RULE = ("2-4 real threads of one process run init / require / add-cpu / set-rank / emit (payloads tagged with thread and sequence number) / "
         "jumbo / flush / attr / mark / free under the seeded scheduler, which parks and releases them at every libc call, every <stdatomic.h> "
         "operation and every API boundary; strategies per run (swarm): uniform random, PCT-style priorities with 1-3 change points, "
